@@ -120,7 +120,16 @@ def do_compile(job) -> dict:
         _set_limit(limit)
         proto = parse(main)
         _clear_limit()
-        res["stages"]["parse"] = {"cls": "ok"}
+        from bitproto._ast import Proto
+        if isinstance(proto, Proto):
+            res["stages"]["parse"] = {"cls": "ok"}
+        else:
+            # parse() neither raised nor produced a schema (the command line would go on to
+            # lint(None) / render(None) and die with an AttributeError)
+            res["stages"]["parse"] = {"cls": "crash", "exc": "NoSchemaReturned", "site": "parser.py:parse",
+                                      "chain": ["parser.py:parse"], "msg": f"parse() returned {type(proto).__name__}",
+                                      "trace": ""}
+            proto = None
     except BaseException as e:  # noqa
         _clear_limit()
         res["stages"]["parse"] = classify(e)
@@ -240,6 +249,42 @@ def do_expr(job) -> dict:
     return res
 
 
+def do_cover(job) -> dict:
+    """Which (semantic action, len(p)) pairs a set of inputs exercises.  The p_* methods of a
+    Parser subclass are wrapped (measurement only; outcomes are not used)."""
+    import bitproto.parser as bp
+    seen = set()
+
+    def wrap(name, fn):
+        def w(self, p):
+            seen.add((name, len(p)))
+            return fn(self, p)
+        w.__doc__ = fn.__doc__
+        w.__name__ = fn.__name__
+        return w
+
+    saved = {}
+    for name in dir(bp.Parser):
+        if name.startswith("p_") and name != "p_error":
+            saved[name] = getattr(bp.Parser, name)
+            setattr(bp.Parser, name, wrap(name, saved[name]))
+    try:
+        for k, files in enumerate(job["inputs"]):
+            d = os.path.join(job["dir"], str(k))
+            main = write_files({"dir": d, "files": files["files"], "main": files["main"]})
+            try:
+                _set_limit(float(job.get("limit", 10)))
+                bp.parse(main)
+            except BaseException:  # noqa
+                pass
+            finally:
+                _clear_limit()
+    finally:
+        for name, fn in saved.items():
+            setattr(bp.Parser, name, fn)
+    return {"id": job["id"], "pairs": sorted([n, l] for n, l in seen)}
+
+
 def main() -> None:
     jobs = json.load(sys.stdin)
     import bitproto
@@ -257,6 +302,8 @@ def main() -> None:
                 out.append(do_lex(job))
             elif kind == "expr":
                 out.append(do_expr(job))
+            elif kind == "cover":
+                out.append(do_cover(job))
             else:
                 out.append({"id": job.get("id"), "worker_error": "unknown kind"})
         except BaseException as e:  # noqa
